@@ -18,7 +18,7 @@ func init() {
 			"R4 dangling separator: a constant piece beginning or ending with ',' next to sqlJoin(x.F, …) is guarded when N.F may be empty; " +
 			"R5 token gluing: an operator printed directly in front of an operand whose SQL may start with the same character ('-' '-') forms a different token. " +
 			"C04 (SQL() total), C07 (parentheses) and C15 (quoting) cover other necessary conditions. Does not decide: ordering of the printed pieces, nested interactions, equality of the two trees.",
-		Rules: []ruleFn{ruleC01R1, ruleC01R2, ruleC01R3, ruleC01R4, ruleC01R5},
+		Rules: []ruleFn{ruleC01R1, ruleC01R2, ruleC01R3, ruleC01R4, ruleC01R5, ruleC01R6, ruleC02R4},
 	})
 }
 
@@ -866,4 +866,120 @@ func dependsOnDeep(x, y ssa.Value) bool {
 		return false
 	}
 	return dep(x, 0)
+}
+
+// guardField: the receiver field a strOpt/if guard tests (x.F, !x.F.Invalid(), x.F != nil, x.F != "").
+func guardField(g ssa.Value, recv ssa.Value, depth int) string {
+	if g == nil || depth > 5 {
+		return ""
+	}
+	if f, ok := fieldOfRecv(g, recv); ok {
+		return f
+	}
+	switch x := g.(type) {
+	case *ssa.UnOp:
+		return guardField(x.X, recv, depth+1)
+	case *ssa.BinOp:
+		if f := guardField(x.X, recv, depth+1); f != "" {
+			return f
+		}
+		return guardField(x.Y, recv, depth+1)
+	case *ssa.Call:
+		for _, a := range x.Call.Args {
+			if f := guardField(a, recv, depth+1); f != "" {
+				return f
+			}
+		}
+		if x.Call.IsInvoke() {
+			return guardField(x.Call.Value, recv, depth+1)
+		}
+	case *ssa.ChangeType:
+		return guardField(x.X, recv, depth+1)
+	case *ssa.Convert:
+		return guardField(x.X, recv, depth+1)
+	case *ssa.MakeInterface:
+		return guardField(x.X, recv, depth+1)
+	}
+	return ""
+}
+
+// ruleC01R6: SQL() prints the fields in the order the parser consumed them.
+func ruleC01R6(w *World, r *Report) {
+	const rule = "C01/R6"
+	r.rule(rule, "SQL() prints the parts of a node in source order: whenever a SQL() method prints field F before field G (in some flattened return sequence), no production that can fill both parses G entirely before F — printing in another order moves tokens and usually no longer re-parses", 80)
+	cat := w.Catalog()
+	sitesByType := map[string][]*siteInfo{}
+	for _, si := range w.sites() {
+		if w.copiesFromSameType(si) {
+			continue
+		}
+		sitesByType[si.ns.Name] = append(sitesByType[si.ns.Name], si)
+	}
+	for _, ns := range cat.Structs {
+		m := w.PrintModel(ns)
+		if m == nil || len(m.seqs) == 0 || len(sitesByType[ns.Name]) == 0 || ns.Name == "CreateTable" {
+			continue
+		}
+		recv := ssa.Value(m.fn.Params[0])
+		type pair struct{ f, g string }
+		printed := map[pair]bool{}
+		for _, seq := range m.seqs {
+			var order []string
+			for _, p := range seq {
+				f := p.field
+				if f == "" {
+					f = guardField(p.guard, recv, 0)
+				}
+				if f == "" || ns.field(f) == nil {
+					continue
+				}
+				if len(order) == 0 || order[len(order)-1] != f {
+					order = append(order, f)
+				}
+			}
+			for i := 0; i < len(order); i++ {
+				for j := i + 1; j < len(order); j++ {
+					if order[i] != order[j] {
+						printed[pair{order[i], order[j]}] = true
+					}
+				}
+			}
+		}
+		var bad []string
+		checked := 0
+		var keys []pair
+		for p := range printed {
+			keys = append(keys, p)
+		}
+		sort.Slice(keys, func(i, j int) bool {
+			if keys[i].f != keys[j].f {
+				return keys[i].f < keys[j].f
+			}
+			return keys[i].g < keys[j].g
+		})
+		for _, p := range keys {
+			if printed[pair{p.g, p.f}] {
+				continue // printed in both orders by different sequences: no claim
+			}
+			for _, si := range sitesByType[ns.Name] {
+				if !w.fieldPresent(si, p.f) || !w.fieldPresent(si, p.g) {
+					continue
+				}
+				ef, eg := w.fieldEvents(si, p.f), w.fieldEvents(si, p.g)
+				checked++
+				if allBefore(eg, ef) {
+					bad = append(bad, fmt.Sprintf("SQL() prints %s before %s, but %s parses %s first (site %s)", p.f, p.g, funcName(si.al.Parent()), p.g, w.pos(si.al.Pos())))
+				}
+			}
+		}
+		if checked == 0 {
+			continue
+		}
+		construct := "ast." + ns.Name + ".SQL order"
+		if len(bad) > 0 {
+			r.bad(rule, construct, w.pos(m.fn.Pos()), strings.Join(uniqSorted(bad), "; "))
+		} else {
+			r.ok(rule, construct, w.pos(m.fn.Pos()), fmt.Sprintf("%d printed field pairs agree with the parse order at every site", checked))
+		}
+	}
 }
